@@ -231,6 +231,12 @@ def run_property(prop, build_tasks, level="proof", tier="quick", seed=0, assumpt
             outs.append({"task": "cosim:" + d.get("task", "?"), "results": [], "covers": [], "functions": [], "stats": {}, "notes": [],
                          "error": "ENGINE-DISAGREEMENT in co-simulation: %s" % json.dumps(d, default=str)[:600]})
 
+        cs_ = tinfo.get("cosimulation") or {}
+        if cs_.get("wrong_prediction_canaries", 0) != cs_.get("wrong_prediction_canaries_caught", 0):
+            outs.append({"task": "cosim:canary", "results": [], "covers": [], "functions": [], "stats": {}, "notes": [],
+                         "error": "co-simulation canary: a deliberately wrong prediction was not reported as a disagreement (%d of %d caught)"
+                                  % (cs_.get("wrong_prediction_canaries_caught", 0), cs_.get("wrong_prediction_canaries", 0))})
+
         def extra2(c, o, _t=tinfo, _e=extra_cov):
             d = dict(_e(c, o)) if _e else {}
             d.update(_t)
